@@ -43,6 +43,15 @@ CHECKS = {
   "assumed: extern contracts for io.ReadFull, encoding/hex.Decode, strconv.ParseInt, crypto/sha256.Sum256 (uninterpreted, deterministic), os.Stat/ReadFile/Open; [32]byte values compare as whole arrays. "
   "NOT decided by this check: the store side (Put then Get returns exactly the data; repair of a damaged output) — put/copyFile/putIndexEntry are not yet under contract, see C12/C11 in not_applicable",
   "contract-based deductive verification: safety and functional postconditions over go/ssa with ghost bindings of the read buffer; z3/cvc5"),
+ "C09": ("5 C09",
+  "Rely-guarantee proof of the runner bookkeeping with ghost counters per Work (sleeping S, signalled K, exited X, in-f F, runners spawned): under arbitrary interference allowed by the rely clause, every step of Add, Do and runner "
+  "(stores to waiting/todo, Signal, Broadcast, the two phases of Cond.Wait, Lock/Unlock with their ghost transitions) re-establishes the invariant: waiting == S+K+X while the mutex is free, S+K+X+F never exceeds the runners spawned (<= n), "
+  "nobody sleeps once waiting == running, and queued work with no exited runner means not every runner is asleep (no lost wake-up / all-asleep state). Named consequences: a runner returns (and Do with it) only with F == 0 and an empty queue; "
+  "f is called outside the lock while counted in F (at most n at a time); Do starts exactly n-1 goroutines plus itself; rand.Intn is called with a non-empty queue.",
+  "assumed: sync.Mutex / sync.Cond semantics as two-phase contracts (Wait returns only to a signalled sleeper, no spurious wake-ups), the ownership reading of the rely clause (each active runner owns one unit of spawned - (S+K+X+F)), "
+  "Work.running/f/wait.L are written only by Do before the runners start (not in the shared set); f touches the Work only through Add. "
+  "NOT decided: that each distinct item is passed to f exactly once and duplicates are ignored (needs an invariant over the contents of todo and added), and termination/liveness proper (fair scheduler, terminating f)",
+  "contract-based deductive verification: rely/guarantee clauses with ghost counters, ghost updates at call sites, two-phase blocking-call contracts; thread-modular VCs discharged by z3/cvc5"),
  "C10": ("5 C10",
   "Rely-guarantee proof over the shared entry state (done, result, ghost invocation count and returned value, mutex held-flag): the environment may take arbitrary steps allowed by the rely clause before every shared access and around every call; "
   "every write of Do (the call of f, the store of result, the atomic store of done) is checked against the guarantee and the global invariant (done==1 implies f ran exactly once and result is its value; done==0 with a free mutex implies f has not run). "
